@@ -308,11 +308,13 @@ def run_long(task):
     n = 0
     for ntok in (50, 130, 200, 270, 400):
         words = ["w%d" % (i % 7) for i in range(ntok)]
-        for pos in (None, 0, ntok // 2, ntok - 1):
+        for pos, edit in [(None, None)] + [(p_, e_) for p_ in (0, ntok // 2, ntok - 1)
+                                           for e_ in ("CHANGED", "x", ";")]:
             x = " ".join(words)
             yw = list(words)
             if pos is not None:
-                yw[pos] = "CHANGED"
+                # a whole token replaced; one character added to a token; one punctuation character appended
+                yw[pos] = "CHANGED" if edit == "CHANGED" else yw[pos] + edit
             y = " ".join(yw)
             data = head + b"@@ -1 +1 @@ H\n-" + x.encode() + b"\n+" + y.encode() + b"\n"
             r = drv.render1(cid, data)
@@ -326,6 +328,9 @@ def run_long(task):
                 err, em = analyse_pair(x, y, rows[0], rows[1], r"\w+", dist)
                 if not err and pos is not None and float(dist) >= 0.6 and not em:
                     err = "a pair differing in 1 of %d tokens is not treated as a pair" % ntok
+                if not err and pos is not None and float(dist) == 0 and em:
+                    err = ("max-line-distance 0: lines differing in non-whitespace text (%r at token %d of %d) "
+                           "are treated as a pair" % (edit, pos, ntok))
             if err:
                 klass = "emph-long:" + err.split(":")[0][:40]
                 if klass not in viols:
